@@ -4,8 +4,18 @@ import json, os, subprocess, sys, time
 VERIF = os.path.dirname(os.path.dirname(os.path.abspath(__file__)))
 REPO = os.environ.get("VERIF_REPO", "/repo")
 CACHE = os.path.join(VERIF, ".cache")
-KANI_CRATE = os.path.join(VERIF, "kani")
+KANI_CRATE_SRC = os.path.join(VERIF, "kani")
+# VERIF_REPO=<dir> (default /repo) lets a run use a snapshot of the repository (e.g. $VP_RUN_REPO under `vp run --with-repo`)
+# instead of /repo itself: the harness crate is then mirrored into the cache with its path dependency rewritten.
+if os.path.realpath(REPO) == "/repo":
+    KANI_CRATE = KANI_CRATE_SRC
+    CACHE_TAG = ""
+else:
+    import hashlib
+    CACHE_TAG = "-" + hashlib.sha1(os.path.realpath(REPO).encode()).hexdigest()[:8]
+    KANI_CRATE = os.path.join(CACHE, "kani-mirror" + CACHE_TAG)
 EVIDENCE = os.path.join(VERIF, "evidence")
+_EVIDENCE_ALT = os.path.join(VERIF, ".cache", "evidence-snapshot-runs")
 REPLAYS = os.path.join(VERIF, "replays")
 NCPU = os.cpu_count() or 8
 
@@ -51,3 +61,8 @@ def load_known():
     if not os.path.exists(p):
         return []
     return json.load(open(p)).get("findings", [])
+
+if CACHE_TAG:
+    # runs against a snapshot never touch the registered evidence files
+    EVIDENCE = _EVIDENCE_ALT
+    REPLAYS = os.path.join(CACHE, "replays-snapshot-runs")
